@@ -64,6 +64,8 @@ macro_rules! harness_list {
         $m!(c05_fault_n5_k1, 18, scen::c05_fault::<6, 1>);
         $m!(c05_fault_n5_k2, 18, scen::c05_fault::<6, 2>);
         $m!(c05_fault_n5_k3, 18, scen::c05_fault::<6, 3>);
+        $m!(c05_fault2_n3_k0, 18, scen::c05_fault2::<5, 0>);
+        $m!(c05_fault2_n3_k2, 18, scen::c05_fault2::<5, 2>);
         $m!(c07_frame_n8_k0, 18, scen::c07_frame::<9, 0>);
         $m!(c07_frame_n8_k2, 18, scen::c07_frame::<9, 2>);
         $m!(c08_table_n8, 18, scen::c08_table::<9>);
